@@ -12,6 +12,30 @@ var keyRunes = []rune{
 	' ', '!', '"', '#', '$', '%', '&', '\'', '(', ')', '*', '+', ',', '.', '/', ':', ';', '<', '=', '>', '?', '@', '[', '\\', ']', '^', '`', '{', '|', '}', '~',
 	0x00, 0x01, 0x08, 0x09, 0x0a, 0x0c, 0x0d, 0x1f, 0x7f,
 	0x80, 0xe9, 0x3b1, 0x4e2d, 0x2028, 0xfeff, 0xfffd, 0xffff, 0x10000, 0x1f600, 0x10ffff,
+	// characters a "helpful" normalisation would fold into something else: typographic quotes,
+	// primes, full-width forms of the grammar's own symbols, no-break / zero-width / ideographic
+	// blanks, a combining accent (NFD), ligature, dotless i, long s, Kelvin sign, soft hyphen, dashes
+	0x2018, 0x2019, 0x201c, 0x201d, 0x2032, 0x2033, 0xff07, 0xff02, 0xff04, 0xff20, 0xff0e, 0xff3b, 0xff3d, 0xff0a, 0xff08, 0xff09,
+	0xa0, 0x200b, 0x200d, 0x3000, 0x2009, 0x0301, 0xfb01, 0x131, 0x17f, 0x212a, 0xad, 0x2010, 0x2013, 0x2212, 0xff41, 0xff10, 0x660,
+}
+
+// foldings maps such a character to what a normalisation would turn it into.
+var foldings = map[rune]string{
+	0x2018: "'", 0x2019: "'", 0x201c: `"`, 0x201d: `"`, 0x2032: "'", 0x2033: `"`, 0xff07: "'", 0xff02: `"`, 0xff04: "$", 0xff20: "@", 0xff0e: ".",
+	0xff3b: "[", 0xff3d: "]", 0xff0a: "*", 0xff08: "(", 0xff09: ")", 0xa0: " ", 0x200b: "", 0x200d: "", 0x3000: " ", 0x2009: " ", 0x0301: "",
+	0xfb01: "fi", 0x131: "i", 0x17f: "s", 0x212a: "K", 0xad: "", 0x2010: "-", 0x2013: "-", 0x2212: "-", 0xff41: "a", 0xff10: "0", 0x660: "0", 0xfeff: "", 0x2028: "\n",
+}
+
+func fold(key string) string {
+	var sb strings.Builder
+	for _, r := range key {
+		if f, ok := foldings[r]; ok {
+			sb.WriteString(f)
+		} else {
+			sb.WriteRune(r)
+		}
+	}
+	return sb.String()
 }
 
 var keyLookAlikes = []string{`\n`, `\t`, `\u0041`, `\ud800`, `\\`, `\'`, `\"`, `\/`, `\b`, `é`, `😀`, `()`, `..`, `*`, `$`, `@`, `?(`, `['a']`}
@@ -82,6 +106,11 @@ func NearMisses(key string) []string {
 		return r
 	}, key))
 	add(key + key)
+	add(fold(key))
+	add(strings.TrimSpace(key))
+	add(strings.ReplaceAll(key, " ", ""))
+	add(strings.ReplaceAll(key, "e\u0301", "é"))
+	add(strings.ReplaceAll(key, "é", "e\u0301"))
 	return out
 }
 
